@@ -5,7 +5,7 @@
     parser accepts; the PEM the scripted agent returns), and the observation:
     panic?, return value class, the response frames parsed from the output. *)
 From Verif Require Import Lib.Base Lib.Bytes Lib.Wire Generated.YubiAgentGen
-  Model.Frames Model.Wire Model.Serve.
+  Model.Frames Model.Wire Model.Serve Model.AgentStd.
 Local Open Scope N_scope.
 
 Record obs := mkObs {
@@ -15,7 +15,11 @@ Record obs := mkObs {
   o_junk : bool }.           (* the output did not parse as whole frames *)
 
 Inductive case :=
-| CServe (exact : bool) (keytab : list (bytes * bool)) (pem : bytes) (stream : bytes) (o : obs).
+| CServe (exact : bool) (keytab : list (bytes * bool)) (pem : bytes) (stream : bytes) (o : obs)
+(* one standard-class request body handed to x/crypto's agent server alone:
+   did it panic while slicing the key constraints (the panic ServeAgent
+   recovers from)?  Compared with [AgentStd.dec_req]. *)
+| CStdDec (req : bytes) (constraint_panic : bool).
 
 (** * The environment of a run.
     [exact = true]: the harness's scripted agent, whose answers are these
@@ -116,6 +120,11 @@ Definition check (c : case) : N :=
                   && frames_agree exact rs (o_frames o)
                then 0 else 1
            end
+  | CStdDec req p =>
+      match AgentStd.dec_req req with
+      | Panic => if p then 0 else 1
+      | Val _ => if p then 1 else 0
+      end
   end.
 
 (** Which way the model's service ended (coverage histogram):
@@ -135,5 +144,11 @@ Definition classify (c : case) : N :=
       | Val (_, EndErr EForward) => 26
       | Val (_, EndErr EWrite) => 27
       | Val (_, EndErr EEof) => 28
+      end
+  | CStdDec req _ =>
+      match AgentStd.dec_req req with
+      | Panic => 30
+      | Val None => 31
+      | Val (Some _) => 32
       end
   end.
